@@ -249,6 +249,130 @@ def rename_to_gensym(src, rnd):
     return ast.unparse(tree) + '\n'
 
 
+# ------------------------------------------------------------------ identifiers of the implementation
+# The property is over ALL programs, in particular over all spellings of their variables.  The only spellings a
+# transformer can treat specially are the ones it uses itself: placeholder names of the code templates it
+# instantiates around / with the user's code, names of its own variables, attributes and helper functions.
+# They are harvested from the tree under test (the anchor files of the property), so that a variable of the
+# generated programs can be called like each of them.
+ANCHOR_FILES = ['malt/pyct/common_transformers/anf.py', 'malt/pyct/templates.py', 'malt/pyct/transformer.py']
+
+
+def _usable(name):
+    import keyword
+    return name.isidentifier() and not keyword.iskeyword(name) and name not in ('None', 'True', 'False', '__debug__') \
+        and name.isascii() and not (name.startswith('__') and name.endswith('__')) and name not in PARAMS \
+        and not name.startswith('tmp_')       # gensym-shaped names are the known finding anf-gensym-user-name-collision
+
+
+def internal_names(repo):
+    """-> (placeholders, others), both sorted.  placeholders: keyword names of every templates.replace /
+    replace_as_expression call of the anchor files and the identifiers of the template texts handed to them;
+    others: every other identifier of those files (variables, parameters, attributes, functions, classes,
+    keywords of calls, identifiers inside string constants that parse as code)."""
+    import os
+    place, other = set(), set()
+
+    def code_names(text):
+        import textwrap
+        try:
+            t = ast.parse(textwrap.dedent(text))
+        except (SyntaxError, ValueError):
+            return set()
+        out = set()
+        for n in ast.walk(t):
+            if isinstance(n, ast.Name):
+                out.add(n.id)
+            elif isinstance(n, ast.arg):
+                out.add(n.arg)
+            elif isinstance(n, (ast.FunctionDef, ast.ClassDef)):
+                out.add(n.name)
+            elif isinstance(n, ast.Attribute):
+                out.add(n.attr)
+        return out
+    for rel in ANCHOR_FILES:
+        path = os.path.join(repo, rel)
+        if not os.path.exists(path):
+            continue
+        try:
+            tree = ast.parse(open(path).read())
+        except SyntaxError:
+            continue
+        for n in ast.walk(tree):
+            if isinstance(n, ast.Call):
+                f = n.func
+                fname = f.attr if isinstance(f, ast.Attribute) else f.id if isinstance(f, ast.Name) else ''
+                if fname in ('replace', 'replace_as_expression') and (n.keywords or (
+                        n.args and isinstance(n.args[0], ast.Constant) and isinstance(n.args[0].value, str))):
+                    place.update(k.arg for k in n.keywords if k.arg)
+                    if n.args and isinstance(n.args[0], ast.Constant) and isinstance(n.args[0].value, str):
+                        place.update(code_names(n.args[0].value))
+                else:
+                    other.update(k.arg for k in n.keywords if k.arg)
+            if isinstance(n, ast.Name):
+                other.add(n.id)
+            elif isinstance(n, ast.arg):
+                other.add(n.arg)
+            elif isinstance(n, ast.Attribute):
+                other.add(n.attr)
+            elif isinstance(n, (ast.FunctionDef, ast.ClassDef)):
+                other.add(n.name)
+            elif isinstance(n, ast.Constant) and isinstance(n.value, str) and '\n' not in n.value.strip() and len(n.value) < 200:
+                other.update(code_names(n.value))
+    place = sorted(x for x in place if _usable(x))
+    return place, sorted(x for x in other if _usable(x) and x not in place)
+
+
+def rename_vars(node_or_src, mapping):
+    """consistent renaming of variables (parameters, locals, targets, operands; not attribute or keyword
+    names) -> text (for a text) or a renamed deep copy (for a tree)"""
+    import copy
+    tree = ast.parse(node_or_src) if isinstance(node_or_src, str) else copy.deepcopy(node_or_src)
+    for n in ast.walk(tree):
+        if isinstance(n, ast.Name) and n.id in mapping:
+            n.id = mapping[n.id]
+        elif isinstance(n, ast.arg) and n.arg in mapping:
+            n.arg = mapping[n.arg]
+    return ast.unparse(tree) + '\n' if isinstance(node_or_src, str) else tree
+
+
+def operand_names(src):
+    """variables of the program read inside an operand that is itself an operand of an operation (the
+    positions out of which the default configuration hoists): sorted"""
+    strict = (ast.Call, ast.BinOp, ast.UnaryOp, ast.Compare, ast.Attribute, ast.Subscript, ast.Dict, ast.Set,
+              ast.Tuple, ast.List, ast.Starred)
+    out = set()
+
+    def walk(n, depth):
+        if isinstance(n, ast.Name) and isinstance(n.ctx, ast.Load) and depth >= 2 and n.id in PARAMS:
+            out.add(n.id)
+        d = depth + 1 if isinstance(n, strict) else depth
+        if isinstance(n, LAZY_NODES):
+            return
+        for c in ast.iter_child_nodes(n):
+            walk(c, d if isinstance(c, (ast.expr, ast.keyword)) or isinstance(n, ast.expr) else 0)
+    walk(ast.parse(src), 0)
+    return sorted(out)
+
+
+LAZY_NODES = (ast.BoolOp, ast.IfExp, ast.Lambda, ast.ListComp, ast.SetComp, ast.DictComp, ast.GeneratorExp)
+
+# one variable (V) in every role, inside operands that are hoisted; the shapes keep the order of evaluation
+# (no operation before a sibling out of which something is hoisted)
+HYGIENE_TEMPLATES = [
+    'return f(g(h(V)))',
+    'V = g(a)\n  return f(h(V))',
+    'z = 0\n  for q in g(V):\n    z = f(z, h(V + q))\n  return z',
+    'for V in g(a):\n    b = f(h(V))\n  return b',
+    'with f(g(V)) as c:\n    return h(c + V)',
+    'with f(a) as V:\n    return g(h(V))',
+    'return V(g(V(a)))',
+    'if f(g(V)).m:\n    return a[h(V)].val\n  raise g(-h(V))',
+    'x.m = f(k0=g(V))\n  a[b] = h([V, 1])\n  return (V < c)[V]',
+    'try:\n    x = f(g(V))\n  except Exception:\n    x = h(g(V))\n  return x',
+]
+
+
 # ------------------------------------------------------------------ configurations
 class SpecConfig(object):
     """Reference reading of a configuration, written from the documentation of anf.transform /
